@@ -40,7 +40,7 @@ def run(ctx):
                 "get_edge pops the head for a new value (count 2, id entered in the table) and answers OutOfMemory exactly at the "
                 "end of the store.")
     ntl = efreelist.check_terminal_links(ctx, F)
-    ctx.floor("E-FREELIST.term.link", "interpreted terminal free-list situations", ntl, 7)
+    ctx.floor("E-FREELIST.term.link", "interpreted terminal free-list situations", ntl, 8)
     elin.check_forget(ctx, F)
     ctx.explain("E-DBG: no side effect (atomic read-modify-write, store, container mutation, assignment) is evaluated inside a "
                 "debug assertion; with debug assertions off it would not happen (225 debug-only blocks inspected).")
